@@ -1,12 +1,279 @@
+"""C18 - each option has exactly its documented effect; entry points are equivalent.
+
+Proof side: Props/C18.lean (wiring theorems on the regenerated tables + spec-level effect theorems).
+Correspondence (worker environment: default only):
+  optpair  the same call under Config c and under c with exactly one switch flipped; the Lean driver
+           (Driver/Opts.lean, relM / relU) decides whether the two results stand in the relation the
+           property names for that switch AND IN NOTHING ELSE; encoding/json is the reference where it
+           has the same notion (HTMLEscape, \\ufffd replacement, UseNumber, DisallowUnknownFields);
+  entry    every alternative entry point must return what the frozen Config returns;
+  froze / setseq   the real option words against `froze` / `applySetter` of the regenerated tables.
+"""
+import json
+import os
+import re
+
+from .. import core
 from ..runner import Spec, Stream
+
+NAMES = ["EscapeHTML", "SortMapKeys", "CompactMarshaler", "NoQuoteTextMarshaler", "NoNullSliceOrMap", "UseInt64",
+         "UseNumber", "UseUnicodeErrors", "DisallowUnknownFields", "CopyString", "ValidateString",
+         "NoValidateJSONMarshaler", "NoValidateJSONSkip", "NoEncoderNewline", "EncodeNullForInfOrNan", "CaseSensitive"]
+
+
+def _name(case):
+    try:
+        return NAMES[int(case[1])]
+    except (ValueError, IndexError):
+        return "?"
+
+
+def _st(s):
+    d = {}
+    for m in re.finditer(r"([a-z]+)(\d+)", s or ""):
+        d[m.group(1)] = int(m.group(2))
+    return d
 
 
 class C18(Spec):
     prop = "C18"
     lean_modules = ["SonicSpec.Props.C18"]
     needs_factx = True
-    rule = "(correspondence streams are added by the C18 work package)"
-    trusted_base = ["go/factx translator (Go source -> Generated/Opts.lean)"]
+    rule = ("optpair: one switch flipped against random settings of the other 15 (UseInt64/UseNumber never both), on generated "
+            "values (maps nil/empty/filled with string/int/TextMarshaler keys, nil/empty slices, NaN/Inf, strings with HTML "
+            "characters, U+2028/9, ill-formed UTF-8, json/Text marshaler leaves returning compact, spaced and ill-formed "
+            "text) and generated documents x destinations (interface{}, flat struct with case-variant names, nested struct, "
+            "map, slice, string; lone surrogate escapes, raw control characters, ill-formed UTF-8, all number shapes); a case "
+            "is non-trivial when the two results (Marshal or stream) differ, or - CopyString / NoValidateJSONSkip - when the "
+            "document is valid and decodes; entry: all "
+            "alternative entry points vs the frozen Config; froze/setseq: real option words vs the regenerated tables")
+    trusted_base = ["go/factx translator (Go source -> Generated/Opts.lean)",
+                    "what the generated code does with an option bit is modelled (Model/Opts.lean), tied by the metamorphic correspondence only",
+                    "encoding/json (HTMLEscape, invalid-UTF-8 replacement, UseNumber, DisallowUnknownFields) as executable reference"]
+    assumptions = ["map iteration order is random in Go: unless SortMapKeys is on on both sides (or is the switch under test) "
+                   "generated maps are cut to one entry, so that both outputs are functions of the value",
+                   "Config{UseInt64, UseNumber both true}: Unmarshal panics by design (SetOptions); listed, not a relation failure",
+                   "omitzero is not known to the Go 1.23.5 encoding/json: no encoding/json reference is used for values (DESIGN 8 #16)",
+                   "`,string` fields: the property's reference for EscapeHTML is HTMLEscape of the output without the switch, "
+                   "which sonic satisfies; encoding/json's own SetEscapeHTML differs there (DESIGN 8 #15, a C03 matter)"]
+
+    def streams(self, tier, seed):
+        if tier == "quick":
+            return [Stream("pair", "c18.pair", 3200, timeout=0.2),
+                    Stream("entry", "c18.entry", 1200, timeout=0.2, use_model=False),
+                    Stream("words", "c18.words", 1500)]
+        return [Stream("pair", "c18.pair", 800000, timeout=0.2),
+                Stream("entry", "c18.entry", 150000, timeout=0.2, use_model=False),
+                Stream("words", "c18.words", 20000)]
+
+    # ------------------------------------------------------------------ model line
+    def _tables(self):
+        """the regenerated tables (Generated/Opts.lean, written by factx in this run) in the driver's wire format;
+        transported only - `frozeIn` / `applySetterIn` of the Lean model do the computing"""
+        if getattr(self, "_tbl", None) is None:
+            self._tbl = {}
+            try:
+                src = open(os.path.join(core.LEAN, "SonicSpec", "Generated", "Opts.lean")).read()
+                m = re.search(r"def configFields : List String := \[([^\]]*)\]", src)
+                fields = re.findall(r'"([^"]+)"', m.group(1))
+                body = src[src.index("def frozeWires"):]
+                body = body[:body.index("\n\n")]
+                wires = re.findall(r'\("([^"]+)", "([^"]+)", (\d+), "[^"]*"\)', body)
+                body = src[src.index("def setters"):]
+                body = body[:body.index("\n\n")]
+                setters = re.findall(r'\("([^"]+)", "([^"]+)", (true|false), (\d+), (\d+), (\d+), (\d+)\)', body)
+                if fields and wires and setters:
+                    self._tbl = {"fields": ",".join(fields),
+                                 "wires": ";".join("%s:%s:%s" % w for w in wires),
+                                 "setters": ";".join("%s:%s:%s:%s:%s:%s:%s" % (r, m_, "1" if tb == "true" else "0", a, b, c, d)
+                                                     for (r, m_, tb, a, b, c, d) in setters)}
+            except (OSError, ValueError, AttributeError):
+                self._tbl = {}
+        return self._tbl
+
+    def model_line(self, case, sonic):
+        op = case[0]
+        if op == "froze":
+            t = self._tables()
+            return "\t".join(["froze", case[1], t["fields"], t["wires"]]) if t else None
+        if op == "setseq":
+            t = self._tables()
+            return "\t".join(["setseq", case[1], case[2], t["setters"]]) if t else None
+        if op != "optpair" or "a" not in sonic or "sw" not in sonic:
+            return None
+        if case[3] == "m":
+            st = _st(sonic.get("st"))
+            return "\t".join(["optpair", sonic["sw"], sonic.get("on", "-"), "m", sonic["a"], sonic["b"], sonic.get("x", "-"),
+                              sonic.get("sa", "-"), sonic.get("sb", "-"), sonic.get("tms", "none"),
+                              sonic.get("tmk", "none"), str(st.get("nf", 0)), str(st.get("bad", 0))])
+        return "\t".join(["optpair", sonic["sw"], sonic.get("on", "-"), "u", case[4], case[5], sonic["a"], sonic["b"], sonic.get("x", "-"),
+                          sonic.get("xdoc", "!"), sonic.get("fields", "-")])
+
+    # ------------------------------------------------------------------ reference
+    def _ref_verdict(self, case, s):
+        """what the executable reference says about the relation: True / False / None (no reference)"""
+        name = _name(case)
+        a, b = s.get("a"), s.get("b")
+        if case[3] == "m":
+            if name in ("EscapeHTML", "ValidateString") and "ref" in s:
+                return b == s["ref"]
+            return None
+        if name in ("UseNumber", "DisallowUnknownFields") and "ref" in s and not (int(case[2]) >> 15) & 1:
+            # (encoding/json has no CaseSensitive: no reference under it)
+            # usable only where encoding/json and sonic agree without the switch (what they differ on is C01's subject)
+            if s.get("ref0") != a or not a.startswith("O:"):
+                return None
+            if name == "DisallowUnknownFields" and not s["ref"].startswith("O:"):
+                return b.startswith("E:")
+            return b == s["ref"]
+        return None
+
+    def model_ref_disagree(self, case, sonic, model):
+        if case[0] != "optpair":
+            return False
+        for env, s in sonic.items():
+            m = (model.get(env) or {}).get("model", "")
+            rv = self._ref_verdict(case, s) if "a" in s else None
+            if rv is None or not m or m.startswith("skip"):
+                continue
+            if (m == "ok") != rv:
+                return True
+        return False
+
+    # ------------------------------------------------------------------ verdict
+    def judge(self, case, sonic, model):
+        out = []
+        op = case[0]
+        for env, s in sonic.items():
+            sv = s.get("sonic")
+            if sv in ("PANIC", "CRASH", "HANG"):
+                out.append(("crash", "%s: %s" % (env, s)))
+                continue
+            m = (model.get(env) or {}).get("model")
+            if op == "optpair":
+                name = s.get("sw") or _name(case)
+                if "P:both_number_modes" in (s.get("a"), s.get("b")):
+                    out.append(("panic-both-number-modes", "%s: Config with UseInt64 and UseNumber panics in Unmarshal" % env))
+                    continue
+                if m is None:
+                    out.append(("tie:optpair-driver", "%s: no model answer" % env))
+                    continue
+                if m.startswith("bad"):
+                    tag = re.match(r"bad:([A-Z][A-Z-]+):", m)
+                    out.append(("switch-%s-%s%s" % (name, case[3], "/" + tag.group(1) if tag else ""), "%s: %s a=%s b=%s x=%s" % (env, m[4:], s.get("a", "")[:400], s.get("b", "")[:400], s.get("x", "")[:200])))
+                elif m.startswith("skip"):
+                    rv = self._ref_verdict(case, s)
+                    if rv is False:
+                        out.append(("switch-%s-%s" % (name, case[3]), "%s: reference relation fails (model: %s) a=%s b=%s ref=%s"
+                                    % (env, m, s.get("a", "")[:300], s.get("b", "")[:300], s.get("ref", "")[:300])))
+            elif op == "entry":
+                if sv == "unsupported":
+                    continue
+                if sv == "P:both_number_modes":
+                    continue
+                if s.get("diff", "-") != "-":
+                    out.append(("entry-%s" % case[1], "%s: frozen=%s differing=%s" % (env, sv[:300], s.get("diff", "")[:600])))
+                if case[1] == "top_v" and "ref" in s and s["ref"] != sv:
+                    pass  # validity itself is C02's subject
+            elif op in ("froze", "setseq"):
+                if m is None or m == "unsupported" or sv == "unsupported":
+                    out.append(("tie:option-words", "%s: sonic=%s model=%s" % (env, sv, m)))
+                elif op == "froze" and sv == "P:both_number_modes" and m == sv:
+                    continue
+                elif sv != m:
+                    out.append(("option-word-%s" % op, "%s: sonic=%s model=%s" % (env, sv, m)))
+                if op == "froze" and s.get("nfields") not in (None, str(len(NAMES))):
+                    out.append(("tie:config-fields", "%s: sonic.Config has %s switches, the check knows %d" % (env, s.get("nfields"), len(NAMES))))
+        return out
+
+    def nontrivial(self, case, sonic, model):
+        s = next(iter(sonic.values()), {})
+        if case[0] == "optpair":
+            # the pair shows the switch acting ...
+            if s.get("a") != s.get("b") or s.get("sa") != s.get("sb"):
+                return True
+            # ... or it is one of the two switches whose documented effect is "none on valid data", on valid data
+            m = (next(iter(model.values()), {}) or {}).get("model", "")
+            return _name(case) in ("CopyString", "NoValidateJSONSkip") and case[3] == "u" and m == "ok" and s.get("a", "").startswith("O:")
+        if case[0] == "entry":
+            return s.get("sonic", "").startswith("O:") or s.get("sonic") in ("0", "1")
+        if case[0] == "froze":
+            return case[1] != "0"
+        return case[0] == "setseq" and case[2] != "-"
+
+    # ------------------------------------------------------------------ known findings
+    def matchers(self):
+        def both_modes(d, params):
+            # Config{UseInt64: true, UseNumber: true}: decoder.SetOptions panics
+            # ("can't set OptionUseInt64 and OptionUseNumber both!") in every Unmarshal
+            if d["kind"] != "panic-both-number-modes":
+                return False
+            try:
+                cfg = int(d["case"][2]) | (1 << int(d["case"][1]))
+            except (ValueError, IndexError):
+                return False
+            return (cfg >> 5) & 3 == 3 and d["case"][3] == "u"
+
+        def tm_keys(d, params):
+            # map keys of a TextMarshaler type: unquoted under NoQuoteTextMarshaler only while SortMapKeys is off
+            # (the sorting iterator, internal/encoder/alg/mapiter.go, always hands the key over as a string)
+            try:
+                cfg = int(d["case"][2])
+                desc = bytes.fromhex(d["case"][4]).decode("utf-8", "replace")
+            except (ValueError, IndexError):
+                return False
+            has_tm_key = '"k":"tm"' in desc or '"Ftk":[[' in desc
+            if d["kind"] == "switch-NoQuoteTextMarshaler-m/KEYS-STAY-QUOTED":
+                return has_tm_key and (cfg >> 1) & 1 == 1
+            if d["kind"] == "switch-SortMapKeys-m/KEYS-REQUOTED":
+                return has_tm_key and (cfg >> 3) & 1 == 1
+            return False
+        return {"both_number_modes_panic": both_modes, "tm_map_keys_quoting_depends_on_sort": tm_keys}
+
+    # ------------------------------------------------------------------ shrinking
+    def shrink_fields(self, case):
+        if case[0] == "optpair" and case[3] == "u":
+            return [5]
+        return []
+
+    def shrink_candidates(self, case):
+        """smaller value descriptions: a sub-tree replaced by null, a list element / map entry / struct field dropped"""
+        if case[0] != "optpair" or case[3] != "m":
+            return []
+        try:
+            desc = json.loads(bytes.fromhex(case[4]).decode("utf-8"))
+        except (ValueError, UnicodeDecodeError):
+            return []
+        out = []
+
+        def emit(d):
+            c = list(case)
+            c[4] = json.dumps(d, separators=(",", ":")).encode().hex()
+            out.append(c)
+
+        def walk(node, rebuild):
+            # rebuild(x) = whole description with `node` replaced by x
+            if isinstance(node, list):
+                for i in range(len(node)):
+                    emit(rebuild(node[:i] + node[i + 1:]))
+                for i, e in enumerate(node):
+                    if isinstance(e, (list, dict)):
+                        emit(rebuild(e))
+                        walk(e, lambda x, i=i: rebuild(node[:i] + [x] + node[i + 1:]))
+            elif isinstance(node, dict):
+                for k, v in node.items():
+                    if k in ("t", "k", "of", "h", "v", "err", "ptr"):
+                        continue
+                    if node.get("t") in ("s1", "s2"):
+                        emit(rebuild({kk: vv for kk, vv in node.items() if kk != k}))
+                    if isinstance(v, (list, dict)):
+                        if node.get("t") in ("s1", "s2") or k != "e":
+                            emit(rebuild(v))
+                        walk(v, lambda x, k=k: rebuild(dict(node, **{k: x})))
+        if isinstance(desc, (list, dict)):
+            walk(desc, lambda x: x)
+        out.sort(key=lambda c: len(c[4]))
+        return out
 
 
 SPEC = C18()
